@@ -98,7 +98,13 @@ func c12load(g *Gen, i int, tags []string, path string, files map[string]string,
 	os.Chdir(src)
 	defer os.Chdir(cwd)
 	b := parser.New()
-	b.AddBuildTags(tags...)
+	if i%2 == 0 {
+		b.AddBuildTags(tags...)
+	} else {
+		for _, tg := range tags {
+			b.AddBuildTags(tg)
+		}
+	}
 	if c12root != "" {
 		write(c12root, "root.go", "package root\n")
 		defer os.RemoveAll(filepath.Join(src, c12root))
